@@ -15,7 +15,8 @@ from vlib import core
 PID = 'C05'
 LEVEL = 'exploration'
 BUDGET_S = {'quick': 40, 'thorough': 600}
-FLOORS = {'quick': {'evaluations': 20000, 'readback_of_written': 5000, 'sweep_reads': 20000},
+FLOORS = {'quick': {'evaluations': 2000000, 'readback_of_written': 300000, 'sweep_reads': 2000000, 'directed_histories': 300,
+                    'exhaustive_histories': 65216, 'random_histories': 800},
           'thorough': {'evaluations': 300000, 'readback_of_written': 80000, 'sweep_reads': 300000}}
 RULE = ("case = one operation history (store, store_tiles, load, load_tiles +-metadata, is_cached, remove, "
         "remove_tiles, cleanup, reopen) on one backend configuration over addresses chosen to collide in that "
@@ -536,14 +537,14 @@ def directed_histories(cfg):
 def gen_cases(run):
     cfgs = all_configs()
     for ci, cfg in enumerate(cfgs):
-        yield {'cfg': cfg, 'kind': 'directed'}
+        yield {'cfg': cfg, 'kind': 'directed', 'must': True}
     maxlen = run.pick(2, 3)
     for ci, cfg in enumerate(cfgs):
         for qi, q in enumerate(quartets(cfg)):
             alpha = exhaustive_alphabet(q, bool(cfg['link']))
             # split the first-op choice into separate cases so shards balance
             for first in range(len(alpha)):
-                yield {'cfg': cfg, 'kind': 'exh', 'q': q, 'first': first, 'maxlen': maxlen}
+                yield {'cfg': cfg, 'kind': 'exh', 'q': q, 'first': first, 'maxlen': maxlen, 'must': True}
     nrand = run.pick(60, 2400)
     for r in range(nrand):
         for ci, cfg in enumerate(cfgs):
